@@ -41,3 +41,29 @@ def kv (tok : String) (key : String) : Option String :=
   if tok.startsWith pre then some ((tok.drop pre.length).toString) else none
 
 end Dos.Wire
+
+namespace Dos.Wire
+
+def hexDigit (n : Nat) : Char := if n < 10 then Char.ofNat (48 + n) else Char.ofNat (87 + n)
+
+def hexOfBytes (b : List UInt8) : String :=
+  if b.isEmpty then "-" else String.ofList (b.flatMap (fun x => [hexDigit (x.toNat / 16), hexDigit (x.toNat % 16)]))
+
+def hexVal (c : Char) : Option Nat :=
+  if '0' ≤ c ∧ c ≤ '9' then some (c.toNat - 48)
+  else if 'a' ≤ c ∧ c ≤ 'f' then some (c.toNat - 87)
+  else none
+
+def bytesOfHexGo : List Char → Option (List UInt8)
+  | [] => some []
+  | [_] => none
+  | a :: b :: rest => do
+    let x ← hexVal a
+    let y ← hexVal b
+    let r ← bytesOfHexGo rest
+    pure (UInt8.ofNat (16 * x + y) :: r)
+
+def bytesOfHex (s : String) : Option (List UInt8) :=
+  if s == "-" then some [] else bytesOfHexGo s.toList
+
+end Dos.Wire
